@@ -53,7 +53,7 @@ def Ctor.ArgsValid (k : Ctor) (a b c : Nat) : Prop :=
   | .songSelect => a < 128 ∧ b = 0 ∧ c = 0
   | _ => a = 0 ∧ b = 0 ∧ c = 0
 
-instance (k : Ctor) (a b c : Nat) : Decidable (k.ArgsValid a b c) := by
+instance Ctor.decArgsValid (k : Ctor) (a b c : Nat) : Decidable (k.ArgsValid a b c) := by
   cases k <;> unfold Ctor.ArgsValid <;> infer_instance
 
 /-- call the named constructor of factory `F` -/
